@@ -17,7 +17,7 @@ if [ -n "$race" ]; then export CGO_ENABLED=1; fi
 before=$(go test $race -count=1 ./zz_demo_$v/ 2>&1 | tail -1)
 if git apply $src/patch.diff 2>/tmp/sv/apply.err; then
   build=$(go build ./... 2>&1 | tail -2; go build -tags verif ./... 2>&1 | tail -2)
-  suite=$(CGO_ENABLED=0 go test -vet=off -count=1 $(go list ./... | grep -v zz_demo) 2>&1 | grep -E "^(--- FAIL|FAIL|panic)" | grep -v "^FAIL$" | sed -E 's/\t[0-9.]+s$//' | tr '\n' ' ')
+  suite=$(CGO_ENABLED=0 go test -vet=off -count=1 $(go list ./... | grep -v zz_demo) 2>&1 | grep -E "^(--- FAIL|FAIL|panic)" | grep -v "^FAIL$" | sed -E 's/\t[0-9.]+s$//; s/ \([0-9.]+s\)$/ (0.00s)/' | tr '\n' ' ')
   after=$(go test $race -count=1 ./zz_demo_$v/ 2>&1 | tail -1)
 else
   build="APPLY FAILED: $(cat /tmp/sv/apply.err | head -2)"; suite=""; after=""
